@@ -509,17 +509,17 @@ def legs(ctx):
                    bound=bound + ' through Session.evaluate (HEX$ OCT$ &H &O & VAL CVI MKI$ CINT)'))
     lvl_s = 3
     lvl_d = 2 if ctx.quick else 3
-    out.append(Leg('single', [(4, lvl_s, e, min(e + 4, 256)) for e in range(0, 256, 4)], work_float, exhaustive=True,
+    out.append(Leg('single', [(4, lvl_s, e, min(e + 4, 256)) for e in range(0, 256, 4)], work_float, exhaustive=False,
                    bound='%d mantissa patterns x all 256 exponent bytes x 2 signs' % len(mbf.mant_set(24, lvl_s))))
-    out.append(Leg('double', [(8, lvl_d, e, min(e + 2, 256)) for e in range(0, 256, 2)], work_float, exhaustive=True,
+    out.append(Leg('double', [(8, lvl_d, e, min(e + 2, 256)) for e in range(0, 256, 2)], work_float, exhaustive=False,
                    bound='%d mantissa patterns x all 256 exponent bytes x 2 signs' % len(mbf.mant_set(56, lvl_d))))
     lvl_t = 1 if ctx.quick else 3
     tops = mbf.mant_set(24, lvl_t)
-    out.append(Leg('dbl-to-sng', [(lvl_t, c) for c in chunked(tops, 4 if ctx.quick else 8)], work_d2s, exhaustive=True,
+    out.append(Leg('dbl-to-sng', [(lvl_t, c) for c in chunked(tops, 4 if ctx.quick else 8)], work_d2s, exhaustive=False,
                    bound='%d top-24-bit patterns x 256 first dropped bytes x %d low-3-byte patterns x %d exponents x 2 signs' % (
                        len(tops), len(D2S_LOW), len(D2S_EXPS))))
     near = list(range(-32770, 32771)) + NEAR_EXTRA
-    out.append(Leg('near-int', list(chunked(near, 512)), work_near_int, exhaustive=True,
+    out.append(Leg('near-int', list(chunked(near, 512)), work_near_int, exhaustive=False,
                    bound='n in -32770..32770 and +-(2^k, 2^k-1) up to 2^56; offsets 0, +-1/4, +-1/2, +-3/4 and their '
                          'representable neighbours; single and double'))
     if not ctx.quick:
